@@ -126,6 +126,11 @@ def stn_mirror(check, proj):
 
 
 def body(check):
+    from ..disc1d import over_cond_paths
+    over_cond_paths(check, _body_paths)
+
+
+def _body_paths(check):
     proj = check.proj
     check.explanation = ("static analysis: (units) a units-of-measure type system is run over every kernel on the solution path "
                          "(fluxes, boundary conditions, time steps, conversions, variables, sources, limiters with a rigid type "
